@@ -377,6 +377,8 @@ def oracle(ctx):
                     if ga != abase or any(a.tzinfo is None or a.utcoffset() != b.utcoffset() for a, b in zip(ga, abase)):
                         ctx.violation("DTSTART with %s does not give the keyword construction" % zone_txt, {"kind": "tz", "text": txt},
                                       {"kw": [d.isoformat() for d in abase[:3]], "text": [d.isoformat() for d in ga[:3]]})
+                    if zone_txt != "Z":
+                        continue      # not required: ignoretz only governs the date text; a TZID parameter is still applied
                     ig = head(iter(R.rrulestr(txt, ignoretz=True)))
                     if ig != base:
                         ctx.violation("ignoretz=True does not give the naive rule", {"kind": "tz-ignore", "text": txt}, None)
